@@ -153,7 +153,7 @@ type sess struct {
 	connRecv map[*nbio.Conn]time.Time // session -> same
 	pendEcho string                   // timed cases: the echo of a `poll` waits until the harness knows whether it was late
 	lateSeen bool                     // a datagram was processed too close to (or after) the earliest possible deadline: not judged
-	attrLog  []string // remote>session id of every non-empty datagram handed over
+	attrLog  []string                 // remote>session id of every non-empty datagram handed over
 
 	// side conns: further stream conns of the same engine (fd table / dispatch: who gets whose bytes)
 	side      map[int]*sideConn
